@@ -7,6 +7,7 @@
 //! implementation's pre-state (lock-step).  Consist mass/force sums and the static train mass of
 //! built simulations are compared as well.
 use crate::util::*;
+use altrios_core::traits::SerdeAPI;
 use altrios_core::consist::locomotive::locomotive_model::{ForceMaxSideEffect, MuSideEffect, PowertrainType};
 use altrios_core::consist::Consist;
 use altrios_core::prelude::*;
@@ -210,9 +211,28 @@ fn gen_loco_state(r: &mut Rng, proto: &LocoS) -> LocoS {
     s
 }
 
+/// Loading a locomotive from a file validates its redundant mass data: the load succeeds exactly when
+/// `mass()` of the object as written accepts it (own mass vs baseline + ballast + component masses).
+fn loco_load_case(l: &Locomotive, id: String, sink: &mut Sink) {
+    let pre = loco_read(l);
+    let text = match l.to_yaml() { Ok(t) => t, Err(_) => return };
+    let loaded = catch(std::panic::AssertUnwindSafe(|| Locomotive::from_yaml(&text)));
+    let mass = catch(std::panic::AssertUnwindSafe(|| l.mass()));
+    let consistent = matches!(mass, Ok(Ok(_)));
+    let accepted = matches!(loaded, Ok(Ok(_)));
+    let mut fails = vec![];
+    if accepted && !consistent { fails.push("a locomotive file whose own mass disagrees with baseline + ballast + component masses was loaded without an error".to_string()); }
+    if !accepted && consistent { fails.push(format!("a locomotive file with consistent mass data was rejected: {}", match &loaded { Ok(Err(e)) => format!("{:#}", e).chars().take(160).collect::<String>(), Err(p) => p.clone(), _ => String::new() })); }
+    let mut o = Outs::new(); o.z("ret", 0); loco_outs(&mut o, l); let _ = loco_getters(&mut o, l);
+    let tags = vec![format!("loco:{}", if pre.conv { "conv" } else { "bel" }), format!("file_mass_data:{}", if consistent { "consistent" } else { "inconsistent" }), format!("load:{}", if accepted { "accepted" } else { "rejected" })];
+    sink.put(Case { id, kind: "loco_load".into(), coq: format!("x_loco_getters {}", loco_coq(&pre)), outcome: Outcome::Ok(o),
+        tags, input: json!({"pre": loco_json(&pre)}), oracle_fail: fails, known: vec![], in_domain: true });
+}
+
 fn loco_run(r: &mut Rng, t: usize, sink: &mut Sink, made: &mut usize) {
     let proto = if r.chance(0.5) { Locomotive::default() } else { Locomotive::default_battery_electric_loco() };
     let mut l = loco_with(&proto, &gen_loco_state(r, &loco_read(&proto)));
+    if t % 3 == 0 { loco_load_case(&l, format!("loco_load/{}", t), sink); *made += 1; }
     let ncalls = 4 + r.below(6);
     for k in 0..ncalls {
         if r.chance(0.3) { l = loco_with(&proto, &gen_loco_state(r, &loco_read(&proto))); }
